@@ -147,7 +147,13 @@ Definition trial_final (c : case) (p : proj) : bool :=
         if pt_is t TEarlyStopped then true
         else match j_phase j with
              | JFail => pt_is t TFailed
-             | JSucc => match v with Some _ => pt_is t TSucceeded | None => pt_is t TMetricsUnavailable end
+             | JSucc => match v with
+                        | Some _ =>
+                            (* with the push collector a successful job whose metrics had not been reported when the
+                               controller looked is MetricsUnavailable for good, even if they arrive later *)
+                            pt_is t TSucceeded || (c_push (k_cfg c) && pt_is t TMetricsUnavailable)
+                        | None => pt_is t TMetricsUnavailable
+                        end
              | JActive => true
              end
     | _, _ => true
